@@ -337,7 +337,7 @@ func (w *W) c11StaleSuffix(pairs int) {
 func runC11(w *W) {
 	n := 600
 	if w.thorough() {
-		n = 12000
+		n = 30000
 	}
 	if w.Out.Variant == "race" {
 		n /= 6
